@@ -162,6 +162,14 @@ def c05(rec, table=None):
         ncb = rec.counts.get("cb", 0)
         if ncb != nev:
             out.append(V("callback-calls-vs-evals", f"{ncb} callback calls for {nev} evaluations"))
+    # the budget covers the constraint functions as well: none of them is called more often than there are
+    # evaluations
+    for j, c in enumerate(c for c in case.get("cons", []) if c["kind"] == "nl"):
+        if True:
+            ncon = rec.counts.get(f"con{j}", 0)
+            if ncon > nev:  # fewer is possible: scipy does not call the function again at an unchanged point
+                out.append(V("con-calls-vs-evals", f"{ncon} calls of constraint function {j} for {nev} evaluations"))
+                break
     if int(res.nfev) != nev:
         out.append(V("nfev-mismatch", f"nfev={res.nfev} but {nev} evaluations were performed"))
     if maxfev is not None and nev > maxfev:
@@ -477,7 +485,8 @@ def c01(rec, table=None):
             slack = 10 * EPS * max(x.size, 1) * np.maximum(
                 1.0, np.maximum(mag, np.maximum(np.where(np.isfinite(xl), np.abs(xl), 0.0),
                                                 np.where(np.isfinite(xu), np.abs(xu), 0.0))))
-            exc = float(max(np.max(xl - x - slack, initial=-INF), np.max(x - xu - slack, initial=-INF)))
+            with np.errstate(over="ignore"):
+                exc = float(max(np.max(xl - x - slack, initial=-INF), np.max(x - xu - slack, initial=-INF)))
             if exc > 0:
                 over = float(max(np.max(xl - x, initial=0.0), np.max(x - xu, initial=0.0)))
                 out.append(V(f"trial-point-outside:{p['kind']}",
@@ -497,11 +506,13 @@ def c01(rec, table=None):
                         break
                 if ux is None or p["x"].shape != sf.shape:
                     continue
-                img = p["x"] * sf + sh
-                got = ux[~fi]
-                slack = 10 * EPS * max(n, 1) * np.maximum(1.0, np.abs(img) + np.abs(sh)
-                                                          + mags.get(p["idx"], 0.0) * np.abs(sf))
-                if np.any(np.abs(img - got) > slack):
+                with np.errstate(all="ignore"):  # boxes of the largest finite numbers: the slack may overflow to inf
+                    img = p["x"] * sf + sh
+                    got = ux[~fi]
+                    slack = 10 * EPS * max(n, 1) * np.maximum(1.0, np.abs(img) + np.abs(sh)
+                                                              + mags.get(p["idx"], 0.0) * np.abs(sf))
+                    bad = bool(np.any(np.abs(img - got) > slack))
+                if bad:
                     out.append(V(f"measured-elsewhere:{p['kind']}",
                                  f"{p['kind']} trial point (evaluation {p['idx'] + 1}) was evaluated at a point "
                                  f"{float(np.max(np.abs(img - got))):.3g} away from where the solver believes"))
